@@ -14,6 +14,8 @@ U.reveal_strlits = True
 U.macro_replacements = {'eco_format': 'crate::prelude::opaque_eco_string()'}
 U.externs = ['rowan', 'ecow', 'unscanny']
 U.flags = []
+# failures that are not tied to a spliced clause: termination and panic freedom belong to C02
+U.kind_tags = {'decreases': 'C02', 'termination': 'C02', 'overflow': 'C02', 'assert': 'C02', 'panic': 'C02', 'divzero': 'C02', 'bounds': 'C02'}
 
 BOTH = 'C01 C02'
 
@@ -144,8 +146,8 @@ U.fn('lexer.rs', '<Lexer as TokenStream>::text',
 U.fn('lexer.rs', '<Lexer as TokenStream>::take_error')
 U.fn('lexer.rs', 'Lexer::new',
      requires=[C('enc(text@).len() <= u32::MAX', BOTH)],
-     ensures=['ret.chars() == text@', 'ret.ci() == 0', '!ret.err()', 'ret.lwf()', 'ret.wf()', 'ret.pos() == 0', 'ret.src() == enc(text@)', '(ret.bnds())(0)', 'ret.bnds() == (|p: nat| is_boundary(text@, p))'],
-     prologue='proof { assert(boff(text@, 0) == 0); }')
+     ensures=['ret.chars() == text@', C('ret.ci() == 0', 'C01'), '!ret.err()', 'ret.lwf()', 'ret.wf()', C('ret.pos() == 0', 'C01', name='lexing starts at offset 0'), 'ret.src() == enc(text@)', 'ret.bnds() == (|p: nat| is_boundary(text@, p))'],
+     prologue='proof { lemma_enc_len(text@); lemma_boff_mono(text@); }')
 U.fn('lexer.rs', 'Lexer::error',
      requires=[C('msg_text(msg).len() > 0', 'C02', name='lexer error messages are non-empty')],
      ensures=['ret == TokenKind::Error', 'final(self).err()', 'final(self).chars() == old(self).chars()', 'final(self).ci() == old(self).ci()'],
@@ -219,7 +221,7 @@ U.fn('preprocessor.rs', '<PreProcessor as TokenStream>::text')
 U.fn('preprocessor.rs', '<PreProcessor as TokenStream>::take_error')
 U.fn('preprocessor.rs', 'PreProcessor::new',
      requires=['token_stream.wf()'],
-     ensures=['ret.wf()', 'ret.src() == token_stream.src()', 'ret.pos() == token_stream.pos()',
+     ensures=['ret.wf()', 'ret.src() == token_stream.src()', C('ret.pos() == token_stream.pos()', 'C01'),
               'ret.bnds() == token_stream.bnds()'])
 U.fn('preprocessor.rs', 'PreProcessor::define_macro', ensures=['final(self).inner() == old(self).inner()', 'final(self).perror() == old(self).perror()'])
 U.fn('preprocessor.rs', 'PreProcessor::macros')
@@ -286,7 +288,8 @@ impl<T: TokenStream> ParserBase<T> {
     pub closed spec fn errs_ok(&self) -> bool {
         forall|i: int| 0 <= i < self.errors@.len() ==> err_ok(#[trigger] self.errors@[i], &self.token_stream)
     }
-    /// structural invariant (C02; the C01 argument rests on it as well);
+    /// structural invariant (C02): stream well-formed, look-ahead range on char boundaries, an Error
+    /// look-ahead has its message parked, builder parents stack sorted, recorded errors well-formed;
     /// `saved` = the look-ahead token has already been pushed to the builder
     pub closed spec fn inv_s(&self, saved: bool) -> bool {
         &&& self.token_stream.wf()
@@ -294,14 +297,18 @@ impl<T: TokenStream> ParserBase<T> {
         &&& self.ra() <= self.rb() <= self.srcv().len() <= u32::MAX
         &&& (self.token_stream.bnds())(self.ra()) && (self.token_stream.bnds())(self.rb())
         &&& (self.current == TokenKind::Error && !saved ==> self.token_stream.has_error())
-        &&& (self.current == TokenKind::Eof ==> self.ra() == self.rb() && self.rb() == self.srcv().len())
         &&& (self.bv().parents.len() > 0 ==> self.bv().parents.last() <= self.bv().n)
         &&& (forall|i: int, j: int| 0 <= i <= j < self.bv().parents.len() ==> self.bv().parents[i] <= self.bv().parents[j])
         &&& self.errs_ok()
     }
-    /// tiling invariant (C01): the builder has received exactly the input prefix before the look-ahead
+    /// tiling invariant (C01): the look-ahead range ends at the stream cursor, and the builder has
+    /// received exactly the input prefix before the look-ahead (including it once saved)
     pub closed spec fn inv_t(&self, saved: bool) -> bool {
-        self.bv().text =~= self.srcv().subrange(0, if saved { self.rb() as int } else { self.ra() as int })
+        &&& self.token_stream.wf()
+        &&& self.rb() == self.token_stream.pos()
+        &&& self.ra() <= self.rb() <= self.srcv().len() <= u32::MAX
+        &&& (self.current == TokenKind::Eof ==> self.ra() == self.rb() && self.rb() == self.srcv().len())
+        &&& self.bv().text =~= self.srcv().subrange(0, if saved { self.rb() as int } else { self.ra() as int })
     }
     pub open spec fn inv(&self, saved: bool) -> bool { self.inv_s(saved) && self.inv_t(saved) }
     pub open spec fn same_shape(&self, o: &Self) -> bool {
@@ -323,21 +330,21 @@ impl<T: TokenStream> ParserBase<T> {
 U.fn('parser.rs', 'CompletedMarker::is_success', ensures=['ret == (*self is Success)'])
 U.fn('parser.rs', 'CompletedMarker::or_error',
      requires=['old(parser).inv(false)', C('msg_text(message).len() > 0', 'C02', name='parser error messages are non-empty')],
-     ensures=[C('final(parser).inv_s(false)', BOTH), C('final(parser).inv_t(false)', 'C01'), 'final(parser).same_but_errors(old(parser))',
+     ensures=[C('final(parser).inv_s(false)', 'C02'), C('final(parser).inv_t(false)', 'C01'), 'final(parser).same_but_errors(old(parser))',
               'final(parser).fuel() == old(parser).fuel()', 'final(parser).cur() == old(parser).cur()', 'final(parser).bv() == old(parser).bv()', 'final(parser).same_shape(old(parser))'])
 
 PINV = ['old(self).inv(false)']
-INV_ENS = [C('final(self).inv_s(false)', BOTH), C('final(self).inv_t(false)', 'C01')]
-SHAPE = C('final(self).same_shape(old(self))', BOTH)
+INV_ENS = [C('final(self).inv_s(false)', 'C02'), C('final(self).inv_t(false)', 'C01')]
+SHAPE = C('final(self).same_shape(old(self))', 'C02')
 FUEL_LE = C('final(self).fuel() <= old(self).fuel()', 'C02')
 U.fn('parser.rs', 'ParserBase::new',
-     requires=['token_stream.wf()', 'token_stream.pos() == 0', '(token_stream.bnds())(0)'],
-     ensures=[C('ret.inv_s(false)', BOTH), C('ret.inv_t(false)', 'C01'), 'ret.srcv() == token_stream.src()',
+     requires=['token_stream.wf()', C('token_stream.pos() == 0', 'C01', name='parsing starts at offset 0')],
+     ensures=[C('ret.inv_s(false)', 'C02'), C('ret.inv_t(false)', 'C01'), 'ret.srcv() == token_stream.src()',
               'ret.bv().parents.len() == 0', 'ret.bv().n == 0', 'ret.errs().len() == 0',
               'ret.bnd() == token_stream.bnds()'],
      prologue='proof { token_stream.lemma_len(); }')
 U.fn('parser.rs', 'ParserBase::finish',
-     requires=['self.inv(false)', C('self.bv().n == 1 && self.bv().parents.len() == 0', BOTH, name='builder holds exactly one finished root node'),
+     requires=['self.inv(false)', C('self.bv().n == 1 && self.bv().parents.len() == 0', 'C02', name='builder holds exactly one finished root node'),
                C('self.cur() == TokenKind::Eof', 'C01', name='whole input consumed before finish')],
      ensures=[C('green_text(&ret.0) == self.srcv()', 'C01'), C('ret.1@ == self.errs()', 'C02'),
               C('forall|i: int| 0 <= i < ret.1@.len() ==> (#[trigger] ret.1@[i]).message@.len() > 0 && tr_start(ret.1@[i].range) <= tr_end(ret.1@[i].range) <= self.srcv().len() && (self.bnd())(tr_start(ret.1@[i].range)) && (self.bnd())(tr_end(ret.1@[i].range))', 'C02')])
@@ -352,11 +359,11 @@ NODE_FRAME = ['final(self).fuel() == old(self).fuel()', 'final(self).cur() == ol
 U.fn('parser.rs', 'ParserBase::start_node', requires=PINV,
      ensures=INV_ENS + ['final(self).bv().parents == old(self).bv().parents.push(old(self).bv().n)', 'final(self).bv().n == old(self).bv().n'] + NODE_FRAME)
 U.fn('parser.rs', 'ParserBase::start_node_at',
-     requires=PINV + [C('cp_val(checkpoint) <= old(self).bv().n', BOTH, name='checkpoint not in the future'),
-                      C('old(self).bv().parents.len() > 0 ==> cp_val(checkpoint) >= old(self).bv().parents.last()', BOTH, name='checkpoint inside the open node')],
+     requires=PINV + [C('cp_val(checkpoint) <= old(self).bv().n', 'C02', name='checkpoint not in the future'),
+                      C('old(self).bv().parents.len() > 0 ==> cp_val(checkpoint) >= old(self).bv().parents.last()', 'C02', name='checkpoint inside the open node')],
      ensures=INV_ENS + ['final(self).bv().parents == old(self).bv().parents.push(cp_val(checkpoint))', 'final(self).bv().n == old(self).bv().n'] + NODE_FRAME)
 U.fn('parser.rs', 'ParserBase::finish_node',
-     requires=PINV + [C('old(self).bv().parents.len() > 0', BOTH, name='finish_node needs an open node')],
+     requires=PINV + [C('old(self).bv().parents.len() > 0', 'C02', name='finish_node needs an open node')],
      ensures=INV_ENS + ['final(self).bv().parents == old(self).bv().parents.drop_last()', 'final(self).bv().n == old(self).bv().parents.last() + 1'] + NODE_FRAME)
 U.fn('parser.rs', 'ParserBase::checkpoint', ensures=['cp_val(ret) == self.bv().n', 'self.inv_s(false) && self.open_node() ==> self.bv().parents.last() <= cp_val(ret)'])
 U.fn('parser.rs', 'ParserBase::peek', ensures=['ret == self.cur()'])
@@ -396,7 +403,7 @@ U.fn('parser.rs', 'ParserBase::eat_if', requires=PINV,
                          C('ret && kind != TokenKind::Eof ==> final(self).fuel() < old(self).fuel()', 'C02'),
                          '!ret ==> *final(self) == *old(self)', 'ret ==> !final(self).cur().spec_is_trivia()'])
 U.fn('parser.rs', 'ParserBase::save', requires=PINV,
-     ensures=[C('final(self).inv_s(true)', BOTH), C('final(self).inv_t(true)', 'C01', name='save pushes exactly the look-ahead token text'),
+     ensures=[C('final(self).inv_s(true)', 'C02'), C('final(self).inv_t(true)', 'C01', name='save pushes exactly the look-ahead token text'),
               'final(self).cur() == old(self).cur()', 'final(self).fuel() == old(self).fuel()',
               'final(self).bv().parents == old(self).bv().parents', 'final(self).bv().n == old(self).bv().n + 1', 'final(self).srcv() == old(self).srcv()',
               'final(self).bnd() == old(self).bnd()'],
